@@ -50,7 +50,12 @@ partial def collatedToJson : Collated Float → Json
 
 def runCollate (j : Json) : R Json := do
   let batch ← (← (← j.getObjVal? "batch").getArr?).toList.mapM datumOfJson
-  match zeroPadCollator (0.0 : Float) 16 batch with
+  let res := match j.getObjVal? "pad" with
+    | .ok p => match f64OfJson p with
+      | .ok v => collateTensors v 16 batch                         -- `collate_tensors(batch, pad_value=v)`
+      | .error _ => zeroPadCollator (0.0 : Float) 16 batch
+    | .error _ => zeroPadCollator (0.0 : Float) 16 batch
+  match res with
   | some c => pure (Json.mkObj [("ok", Json.bool true), ("result", collatedToJson c)])
   | none => pure (Json.mkObj [("ok", Json.bool false)])
 
